@@ -125,7 +125,12 @@ class Emit:
     def block(self, b):
         _, stmts, tail = b
         parts = []
-        for s in stmts:
+        for si, s in enumerate(stmts):
+            if s[0] == "let" and s[2][0] == "try" and self.cfg.get("optmonad"):
+                # `let pat = e?;` inside a function / closure returning `Option`: `None` ends it
+                inner = self.block(("block", list(stmts[si + 1:]), tail))
+                t = "(match %s with\n    | some %s => %s\n    | none => none)" % (self.e(s[2][1]), self.pat(s[1]), inner)
+                return "(" + ";\n    ".join(parts + [t]) + ")" if parts else t
             if s[0] == "let":
                 pat, e = s[1], s[2]
                 if pat[0] == "ptuple" and e[0] == "tuple" and len(pat[1]) == len(e[1]) and \
@@ -248,6 +253,12 @@ class Emit:
         if k == "match":
             arms = "".join("\n    | %s => %s" % (self.pat(p), self.e(b)) for p, b in x[2])
             return "(match %s with%s)" % (self.e(x[1]), arms)
+        if k == "closure" and self.cfg.get("cps_closures") and x[2][0] == "block" and self.has_return(x[2]):
+            oldret, oldwrap = self.cfg.get("ret"), self.retwrap
+            self.cfg["ret"], self.retwrap = "{0}", (lambda v: v)
+            body = self.cps(list(x[2][1]), x[2][2], lambda v: v, {}, {})
+            self.cfg["ret"], self.retwrap = oldret, oldwrap
+            return "(fun %s => (%s))" % (" ".join(self.pat(p_) for p_ in x[1]), body)
         if k == "closure":
             ps = " ".join(self.pat(p) if p[0] == "pvar" else "(" + self.pat(p)[1:-1] + ")" if False else self.pat(p) for p in x[1])
             if len(x[1]) == 1 and x[1][0][0] == "ptuple":
@@ -292,7 +303,7 @@ class Emit:
         """variables assigned / pushed to / popped in the statements (recursively), minus those `let`-declared at this level"""
         out, declared = [], set()
         def add(v):
-            if v not in declared and v not in out:
+            if v not in declared and v not in out and v not in self.cfg.get("ignore_assign", ()):
                 out.append(v)
         def walk(x):
             if x[0] == "assign" and self.lhs_name(x[1]) is not None:
@@ -311,6 +322,10 @@ class Emit:
             elif x[0] == "for":
                 for v in self.assigned(self.as_stmts(x[3])):
                     add(v)
+            elif x[0] == "match":
+                for _, b in x[2]:
+                    for v in self.assigned(self.as_stmts(b)):
+                        add(v)
             elif x[0] == "if":
                 for br in (x[2], x[3]):
                     if br is not None:
@@ -445,6 +460,19 @@ class Emit:
             # `if c { continue; }` inside a loop body: the rest of the body runs only when `c` is false
             # (`result` is the tuple of the loop-carried variables, which is what an iteration yields)
             return "(if %s then %s else (%s))" % (self.e(x[1]), result, tailstr())
+        if x[0] == "assign" and self.lhs_name(x[1]) in self.cfg.get("ignore_assign", ()):
+            return tailstr()
+        if x[0] == "match":
+            w = []
+            for _, b in x[2]:
+                for v in self.assigned(self.as_stmts(b)):
+                    if v not in w:
+                        w.append(v)
+            if not w:
+                return tailstr()
+            t = self.tup(w)
+            arms = "".join("\n    | %s => (%s)" % (self.pat(p_), self.imp(self.as_stmts(b), t)) for p_, b in x[2])
+            return "let %s := (match %s with%s);\n    %s" % (t, self.e(x[1]), arms, tailstr())
         if x[0] == "if":
             thn = self.as_stmts(x[2])
             els = self.as_stmts(x[3]) if x[3] is not None else []
@@ -677,6 +705,9 @@ class Emit:
             return self.cps_branch(tail, go, borrows, optb, wrapK=True)
         if tail[0] == "return":
             return self.ret(self.e(tail[1]))
+        if tail[0] == "mcall" and tail[2] in self.cfg.get("effcalls", {}):
+            # a call that mutates its receiver / arguments, in value position
+            return self.cps([("let", ("pvar", "__r"), tail)], ("path", ["__r"]), K, borrows, optb)
         return self.final(K, self.e(tail), borrows)
 
     def final(self, K, v, borrows):
@@ -875,6 +906,17 @@ TRACK_OBS = "List (Nat × List (Option A × Option F))"
 TRACK_FIELDS = {"self.attributes": "attributes", "self.observations": "obs_db", "self.metric": "metric", "self.merge_history": "merge_history",
                 "self.notifier": "notes", "self.track_id": "()"}
 TRACK_OPT = "(optimize : M → Nat → List Nat → TA → List (Option A × Option F) → Nat → Bool → Except E Unit × M × TA × List (Option A × Option F))"
+TRACK_DIST = [
+    dict(group="TrackDist", name="track_distances", file="track.rs", impl=TRACK_IMPL, fn="distances", optmonad=True,
+         sig="{TA M OA E : Type} (compatible : TA → TA → Bool) (metricFn : Nat × TA × OA × TA × OA → Option (Option Int × Option Rat))\n    (self_id : Nat) (self_attrs : TA) (self_obs : List (Nat × List OA)) (other_id : Nat) (other_attrs : TA) (other_obs : List (Nat × List OA)) (feature_class : Nat) :\n    Except (Track.Err E) (List Track.DistOk)",
+         fieldpath={"self.attributes": "self_attrs", "other.attributes": "other_attrs", "self.observations": "self_obs", "other.observations": "other_obs",
+                    "self.track_id": "self_id", "other.track_id": "other_id", "self.metric": "()"},
+         method={"compatible": "compatible {0} {1}", "get": "dbGet {0} {1}", "iter": "{0}", "cartesian_product": "cartProd {0} {1}", "flat_map": "List.filterMap {1} {0}",
+                 "collect": "{0}", "into": "{0}", "get_attributes": "{0}_attrs", "metric": "metricFn {1}"},
+         struct={"MetricQuery": "tuple", "ObservationMetricOk": ("Track.DistOk", {"from": "frm", "to": "to", "attribute_metric": "attr", "feature_distance": "feat"})},
+         call={"Ok": "Except.ok {0}", "Err": "Except.error {0}", "Some": "some {0}", "Errors::ObservationForClassNotFound": "Track.Err.noClass"},
+         path={"Errors::IncompatibleAttributes": "Track.Err.incompat"}),
+]
 TRACK = [
     dict(group="Track", name="track_add_observation", file="track.rs", impl=TRACK_IMPL, fn="add_observation", cps=True, imperative=True,
          sig="{TA M A F U E : Type} (applyU : U → TA → Except E Unit × TA) " + TRACK_OPT + "\n    (attributes : TA) (obs_db : " + TRACK_OBS + ") (metric : M) (merge_history : List Nat) (notes : Nat)\n    (feature_class : Nat) (feature_attributes : Option A) (feature : Option F) (track_attributes_update : Option U) :\n    Except E Unit × TA × " + TRACK_OBS + " × M × Nat",
@@ -918,6 +960,44 @@ VOTING = [
          method=dict(VOTE_METHOD, into_group_map=["order (groupMap {0})", "groupMapG {0}"], contains="List.contains {0} {1}"),
          call={"HashSet::new": "([] : List Nat)", "Some": "some {0}"},
          mutmethods={"insert": "{1} :: {0}", "sort_by": "List.mergeSort {0} (fun a b => ({1} a b) != Ordering.gt)"}),
+]
+
+def pick_arm(name, upto_for=True):
+    """the statements of the `Commands::<name>` arm of the worker loop (up to and including its first `for` loop)"""
+    def f(st):
+        for x in st:
+            if x[0] == "expr" and x[1][0] == "whilelet":
+                for y in x[1][3][1]:
+                    if y[0] == "expr" and y[1][0] == "match":
+                        for pat, body in y[1][2]:
+                            if pat[0] == "pctor" and pat[1][-1] == name:
+                                sel = list(body[1]) + ([("expr", body[2])] if body[2] is not None else [])
+                                if upto_for:
+                                    for i, z in enumerate(sel):
+                                        if z[0] == "expr" and z[1][0] == "for":
+                                            return sel[:i + 1]
+                                return sel
+        return []
+    return f
+STORE = [
+    dict(group="StoreCmd", name="store_distances_cmd", file="track/store.rs", impl=None, fn="handle_store_ops", imperative=True, cps_closures=True, optmonad=True,
+         pick=pick_arm("Distances"), result="(distances, errors)", ignore_assign=("capacity",),
+         sig="{T E : Type} (idOf : T → Nat) (distFn : T → T → Nat → Except (Track.Err E) (List Track.DistOk)) (bakedOf : T → Except E Track.Status)\n    (postFn : T → List Track.DistOk → List Track.DistOk) (store : List (Nat × T)) (track : T) (feature_class : Nat) (only_baked : Bool) :\n    List Track.DistOk × List (Except (Track.Err E) (List Track.DistOk))",
+         fieldpath={"track.track_id": "(idOf track)", "other.track_id": "(idOf other)", "track.metric": "track", "other.observations": "()"},
+         method={"lock": "{0}", "unwrap": "{0}", "iter": "{0}", "flat_map": "List.filterMap {1} {0}", "collect": "{0}", "len": "List.length {0}",
+                 "distances": "distFn {0} {1} {2}", "postprocess_distances": "postFn {0} {1}", "downcast_ref": "some {0}", "get_attributes": "{0}", "baked": "bakedOf {0}"},
+         call={"Some": "some {0}", "Ok": "Except.ok {0}", "Err": "Except.error {0}", "Vec::with_capacity": "[]", "Vec::new": "[]"},
+         path={"None": "none"},
+         pctor={"Ok": "Except.ok", "Err": "Except.error", "Errors::IncompatibleAttributes": "Track.Err.incompat", "TrackStatus::Ready": "Track.Status.ready"},
+         mutmethods={"extend_from_slice": "{0} ++ {1}"}),
+    dict(group="StoreCmd", name="store_merge_cmd", file="track/store.rs", impl=None, fn="handle_store_ops", imperative=True, cps=True,
+         pick=lambda st: (lambda sel: sel[:next((i for i, x in enumerate(sel) if x[0] == "let" and x[1] == ("pvar", "res")), len(sel) - 1) + 1])(pick_arm("Merge", upto_for=False)(st)),
+         ret="(res, store)",
+         sig="{T E : Type} (idOf : T → Nat) (classesOf : T → List Nat) (mergeFn : T → T → List Nat → Bool → Except (Track.Err E) Unit × T)\n    (store : List (Nat × T)) (dest_id : Nat) (src : T) (classes : List Nat) (merge_history : Bool) : Except (Track.Err E) Unit × List (Nat × T)",
+         fieldpath={"src.track_id": "(idOf src)"},
+         method={"lock": "{0}", "unwrap": "{0}", "is_empty": "List.isEmpty {0}", "get_feature_classes": "classesOf {0}", "into": "{0}"},
+         effcalls={"merge": ("mergeFn {0} {1} {2} {3}", ["@0"])},
+         call={"Err": "Except.error {0}", "Errors::SameTrackCalculation": "Track.Err.same {0}", "Errors::TrackNotFound": "Track.Err.notFound {0}"}),
 ]
 # decision kernels over Nat / Rat (no field structure needed)
 GAL_METHOD = {"feature": "featureOf {0}", "attr": "{0}", "as_ref": "{0}", "unwrap": "{0}", "visual_quality": "quality {0}",
@@ -1025,7 +1105,7 @@ LOGIC = [
 def gen(repo, cfgs, header, footer):
     out, unread = [header], []
     for c in cfgs:
-        if c in LOGIC or c in TRACK or c in VOTING:
+        if c in LOGIC or c in TRACK or c in VOTING or c in TRACK_DIST or c in STORE:
             c = dict(c, scalar=c.get("scalar", "Rat"))
         path = os.path.join(repo, "src", c["file"])
         try:
@@ -1130,6 +1210,10 @@ def optUnwrap {α : Type} [Inhabited α] (o : Option α) : α := o.getD default
 /-- `Iterator::sum` -/
 def lsumQ (l : List Rat) : Rat := l.foldl (· + ·) 0
 """
+PRELUDE_TRACKDIST = """open SimVerif
+/-- itertools `cartesian_product`: every left element with every right element, left-major -/
+def cartProd {α β : Type} (l : List α) (r : List β) : List (α × β) := l.flatMap (fun a => r.map (fun b => (a, b)))
+"""
 PRELUDE_SWAP = """/-- `slice::swap(i, j)` (indices in range: the code pushes an element first) -/
 def listSwap {α : Type} (l : List α) (i j : Nat) : List α :=
   match l[i]?, l[j]? with
@@ -1183,6 +1267,8 @@ def main():
     jobs.append(("LEpochDb.lean", [c for c in LOGIC if c["group"] == "EpochDb"], "import SimVerif.Gen.LBase\n" + HEADER_L, "SimVerif.Gen.L"))
     jobs.append(("LVoting.lean", VOTING, "import SimVerif.Gen.LBase\nimport SimVerif.Model.Voting\n" + HEADER_L + PRELUDE_VOTING, "SimVerif.Gen.L"))
     jobs.append(("LTrack.lean", TRACK, HEADER_L + PRELUDE_TRACK, "SimVerif.Gen.L"))
+    jobs.append(("LStoreCmd.lean", STORE, "import SimVerif.Gen.LBase\nimport SimVerif.Model.Track\n" + HEADER_L + "open SimVerif\n", "SimVerif.Gen.L"))
+    jobs.append(("LTrackDist.lean", TRACK_DIST, "import SimVerif.Gen.LTrack\nimport SimVerif.Model.Track\n" + HEADER_L + PRELUDE_TRACKDIST, "SimVerif.Gen.L"))
     jobs.append(("LConstr.lean", [c for c in LOGIC if c["group"] == "Constr"], HEADER_L + PRELUDE_DEDUP, "SimVerif.Gen.L"))
     jobs.append(("LBase.lean", [], HEADER_L + PRELUDE_BASE + PRELUDE_MAP, "SimVerif.Gen.L"))
     jobs.append(("LGallery.lean", [c for c in LOGIC if c["group"] == "Gallery"], "import SimVerif.Gen.LBase\n" + HEADER_L + PRELUDE_SWAP, "SimVerif.Gen.L"))
